@@ -28,7 +28,7 @@ func init() {
 
 // ---- classification of results ----------------------------------------------------------
 
-func errClass(err error) string {
+func streamErrClass(err error) string {
 	switch {
 	case err == nil:
 		return "nil"
@@ -154,25 +154,25 @@ func (w *streamWorld) opFunc(op string, n int) func() string {
 	pay := func(k int) []byte { return bytes.Repeat([]byte{byte(n)}, k) }
 	pkt := func(kind drpcwire.Kind, ctl bool, data []byte, sid uint64) func() string {
 		return func() string {
-			return errClass(s.HandlePacket(drpcwire.Packet{Data: data, ID: drpcwire.ID{Stream: sid, Message: uint64(n)}, Kind: kind, Control: ctl}))
+			return streamErrClass(s.HandlePacket(drpcwire.Packet{Data: data, ID: drpcwire.ID{Stream: sid, Message: uint64(n)}, Kind: kind, Control: ctl}))
 		}
 	}
 	errPayload := append(make([]byte, 8), []byte("E"+strconv.Itoa(n))...)
 	errPayload[7] = 7
 	switch op {
 	case "MsgSend1":
-		return func() string { return errClass(s.MsgSend(&dir.Msg{Data: pay(4)}, enc)) }
+		return func() string { return streamErrClass(s.MsgSend(&dir.Msg{Data: pay(4)}, enc)) }
 	case "MsgSend2":
-		return func() string { return errClass(s.MsgSend(&dir.Msg{Data: pay(12)}, enc)) }
+		return func() string { return streamErrClass(s.MsgSend(&dir.Msg{Data: pay(12)}, enc)) }
 	case "RawWrite1":
-		return func() string { return errClass(s.RawWrite(drpcwire.KindInvoke, pay(4))) }
+		return func() string { return streamErrClass(s.RawWrite(drpcwire.KindInvoke, pay(4))) }
 	case "RawFlush":
-		return func() string { return errClass(s.RawFlush()) }
+		return func() string { return streamErrClass(s.RawFlush()) }
 	case "MsgRecv":
 		return func() string {
 			var m dir.Msg
 			if err := s.MsgRecv(&m, enc); err != nil {
-				return errClass(err)
+				return streamErrClass(err)
 			}
 			if len(m.Data) == 0 {
 				return "msg:empty"
@@ -183,7 +183,7 @@ func (w *streamWorld) opFunc(op string, n int) func() string {
 		return func() string {
 			data, err := s.RawRecv()
 			if err != nil {
-				return errClass(err)
+				return streamErrClass(err)
 			}
 			if len(data) == 0 {
 				return "msg:empty"
@@ -191,11 +191,11 @@ func (w *streamWorld) opFunc(op string, n int) func() string {
 			return "msg:" + strconv.Itoa(int(data[0]))
 		}
 	case "CloseSend":
-		return func() string { return errClass(s.CloseSend()) }
+		return func() string { return streamErrClass(s.CloseSend()) }
 	case "Close":
-		return func() string { return errClass(s.Close()) }
+		return func() string { return streamErrClass(s.Close()) }
 	case "SendError":
-		return func() string { return errClass(s.SendError(errors.New("E" + strconv.Itoa(n)))) }
+		return func() string { return streamErrClass(s.SendError(errors.New("E" + strconv.Itoa(n)))) }
 	case "CancelC":
 		return func() string { return strconv.FormatBool(s.Cancel(context.Canceled)) }
 	case "CancelD":
@@ -206,7 +206,7 @@ func (w *streamWorld) opFunc(op string, n int) func() string {
 			if busy {
 				return "busy"
 			}
-			return errClass(err)
+			return streamErrClass(err)
 		}
 	case "PMsg":
 		return pkt(drpcwire.KindMessage, false, pay(4), 1)
